@@ -2,10 +2,11 @@
 # tools/trymutant.sh <patch.diff> <id> [budget_s] — apply a patch to a scratch copy of /repo's working tree and run the
 # check against it (VERIF_REPO). /repo itself is never touched; the scratch copy is removed afterwards.
 P=$(readlink -f "$1"); ID=$2; B=${3:-15}
+HOME_DIR=$(cd "$(dirname "$0")/.." && pwd)
 D=$(mktemp -d /dev/shm/mutant-XXXXXX) || exit 2
 trap 'rm -rf "$D"' EXIT
 rsync -a --exclude .git /repo/ "$D/" || exit 2
 (cd "$D" && git apply "$P") || { echo "patch does not apply"; exit 2; }
 (cd "$D" && GOFLAGS=-mod=mod GOPROXY=off GOSUMDB=off go build ./...) || { echo "mutant does not build"; exit 2; }
-cd /verif && VERIF_REPO="$D" VERIF_BUDGET_S=$B VERIF_EVIDENCE_DIR="$D/evidence" VERIF_REPLAY_DIR="$D/replays" ./check.sh "$ID" quick
+cd "$HOME_DIR" && VERIF_REPO="$D" VERIF_BUDGET_S=$B VERIF_EVIDENCE_DIR="$D/evidence" VERIF_REPLAY_DIR="$D/replays" ./check.sh "$ID" quick
 echo "exit=$?"
